@@ -14,12 +14,14 @@ import (
 	"encoding/hex"
 	"errors"
 	"fmt"
+	"io"
 	mrand "math/rand"
 	"net"
 	"os"
 	"strings"
 	"time"
 
+	hclog "github.com/hashicorp/go-hclog"
 	wrapping "github.com/hashicorp/go-kms-wrapping/v2"
 	"github.com/hashicorp/go-kms-wrapping/v2/aead"
 	"github.com/hashicorp/nodeenrollment"
@@ -47,6 +49,7 @@ type Cfg struct {
 	SO       bool     `json:"so"`      // server storage = the store-once test back end, which looks records up by node id ITSELF
 	TwoH     bool     `json:"twoh"`    // file back end, two handles on one directory: the listener holds one, the operator uses the other
 	LState   bool     `json:"lstate"`  // the listener's own Options carry WithState (legitimate: they feed the fetch function)
+	LLog     bool     `json:"llog"`    // the listener's own Options carry a debug-level logger
 	LSkew    bool     `json:"lskew"`   // the listener's own Options carry WithNotAfterClockSkew(0) (legitimate: it tunes request validation)
 	Nide     bool     `json:"nide"`    // node-id lookups that find nothing answer with an empty set instead of not-found
 	LifeSec  int      `json:"lifeSec"` // root lifetime in seconds (0: library default); short lifetimes enable RotateWait
@@ -273,6 +276,9 @@ func Run(bh Behaviour, seed int64) ([]Line, error) {
 	if bh.Cfg.LState {
 		ls, _ := structpb.NewStruct(map[string]any{"owner": "listener", "configured": true})
 		sc.ExtraOpts = append(sc.ExtraOpts, nodeenrollment.WithState(ls))
+	}
+	if bh.Cfg.LLog {
+		sc.ExtraOpts = append(sc.ExtraOpts, nodeenrollment.WithLogger(hclog.New(&hclog.LoggerOptions{Level: hclog.Debug, Output: io.Discard})))
 	}
 	if bh.Cfg.LSkew {
 		sc.ExtraOpts = append(sc.ExtraOpts, nodeenrollment.WithNotAfterClockSkew(0))
@@ -1048,6 +1054,35 @@ func (r *run) malformedProtos(cls, pfx string) []string {
 		}
 		bb, _ := proto.Marshal(req)
 		c, _ := nodetls.BreakIntoNextProtos(nodeenrollment.FetchNodeCredsNextProtoV1Prefix, base64.RawStdEncoding.EncodeToString(bb))
+		return c
+	case "rewrapNoKeyInfo":
+		// a well-signed fetch request of an unknown node in the relayed ("re-wrapped") shape: it names a registered node as
+		// the relay (key ids are not secret) and carries a sealed blob that has a ciphertext but no key information
+		info, err := r.srv.W.BuildInfo(world.FetchSpec{K: "kx", E: "e1", Nonce: "n1"})
+		if err != nil {
+			panic(err)
+		}
+		req, err := r.srv.W.SignInfo(info, "kx")
+		if err != nil {
+			panic(err)
+		}
+		junk := make([]byte, 28)
+		r.rng.Read(junk)
+		req.RewrappedWrappingRegistrationFlowInfo, _ = proto.Marshal(&wrapping.BlobInfo{Ciphertext: junk})
+		req.RewrappingKeyId = r.srv.W.EnsureCertKey("k1").KeyId
+		bb, _ := proto.Marshal(req)
+		c, _ := nodetls.BreakIntoNextProtos(nodeenrollment.FetchNodeCredsNextProtoV1Prefix, base64.RawStdEncoding.EncodeToString(bb))
+		return c
+	case "authStateGarbage":
+		// an authentication request of a peer without credentials whose client state bytes are not a state structure at all
+		ck := r.srv.W.EnsureCertKey("kx")
+		nonce := make([]byte, nodeenrollment.NonceSize)
+		r.rng.Read(nonce)
+		garbage := []byte{0xff, 0xff, 0xff}
+		greq := &types.GenerateServerCertificatesRequest{CertificatePublicKeyPkix: ck.Pkix, Nonce: nonce, NonceSignature: ed25519.Sign(ck.Priv, nonce),
+			ClientState: garbage, ClientStateSignature: ed25519.Sign(ck.Priv, garbage)}
+		bb, _ := proto.Marshal(greq)
+		c, _ := nodetls.BreakIntoNextProtos(nodeenrollment.AuthenticateNodeNextProtoV1Prefix, base64.RawStdEncoding.EncodeToString(bb))
 		return c
 	case "unknownToken", "garbageToken":
 		// a well-signed fetch request presenting a well-formed activation token the server does not hold (used up, or
